@@ -157,7 +157,7 @@ def check_case(case) -> Outcome:
     except (ValueError, TypeError) as e:
         out.fail("non-numeric-cell", f"{s!r} on dtype {dt} via {mat}, output {output}: {str(e)[:120]}; sample {np.asarray(raw).ravel()[:6].tolist()}", **feat)
         return out
-    if output == "pandas" and dt in ("int64", "uint64") and "v" in list(mm.columns) and mat == "pandas" and max(case["values"]) > 2**53:
+    if output == "pandas" and dt in ("int64", "uint64", "Int64") and "v" in list(mm.columns) and mat == "pandas" and all(v_ is not None for v_ in case["values"]) and max(case["values"]) > 2**53:
         # exact pass-through of integers beyond the float mantissa
         out.label("big-integers")
         col_ = mm["v"]
@@ -191,6 +191,8 @@ def gen():
             vals = draw(st.lists(st.booleans(), min_size=n, max_size=n))
         elif dt in NULLABLE and dt != "Float64":
             vals = draw(st.lists(st.integers(0, 200), min_size=n, max_size=n))
+            if dt == "Int64" and draw(st.integers(0, 3)) == 0:
+                vals[0] = 2**53 + 1
         elif dt in INTS:
             hi = {"int8": 127, "uint8": 255}.get(dt, 30000)
             lo = 0 if dt.startswith("u") else -min(hi, 100)
